@@ -151,6 +151,24 @@ func (c *Conn) Read(p []byte) (int, error) {
 	if c.rExp || (!c.rdl.IsZero() && c.now().After(c.rdl)) {
 		return 0, timeoutErr{"read"}
 	}
+	if len(c.rq) == 0 && len(c.S.LateOut) > 0 {
+		late := c.S.LateOut
+		c.S.LateOut = nil
+		if !c.rdl.IsZero() {
+			// the reply arrives after the deadline: this read times out, the bytes are there for whoever reads next
+			c.Blocks = append(c.Blocks, BlockEvent{Op: "read", At: c.now(), Deadline: c.rdl, After: c.lastPos()})
+			if d := c.rdl.Sub(c.now()); d > 0 {
+				c.Skew += d
+			}
+			c.rExp = true
+			if !c.wdl.IsZero() && !c.wdl.After(c.rdl) {
+				c.wExp = true
+			}
+			c.rq = append(c.rq, late...)
+			return 0, timeoutErr{"read"}
+		}
+		c.rq = append(c.rq, late...) // nobody set a deadline: the client simply gets the reply when it comes
+	}
 	if len(c.rq) > 0 {
 		n := copy(p, c.rq)
 		c.rq = c.rq[n:]
